@@ -2,7 +2,10 @@ package agent
 
 import (
 	"context"
+	"errors"
 	"io"
+	"net/http"
+	neturl "net/url"
 	"os"
 	"time"
 
@@ -106,5 +109,75 @@ func VerifHarness_C16_race() {
 	vfAssert(!(ranA && ranB), "C16.race/two-simultaneous-starts-never-both-execute-steps")
 	vfAssert(ranA || ranB, "C16.race/one-of-the-two-starts-runs")
 	_, _ = errA, errB
+	vfReach("end")
+}
+
+// C16.window: run A is parked after its status socket is listening and before its steps
+// start (inside the DataStores.DAGStore() call that builds the DAG context); a second
+// start must be refused, because A's socket answers "running" from the moment it listens.
+type vfWindowStores struct {
+	h      *vfRaceHist
+	parked chan struct{}
+	resume chan struct{}
+}
+
+func (s *vfWindowStores) HistoryStore() persistence.HistoryStore { return s.h }
+func (s *vfWindowStores) DAGStore() persistence.DAGStore {
+	if s.parked != nil {
+		s.parked <- struct{}{}
+		<-s.resume
+	}
+	return nil
+}
+func (s *vfWindowStores) FlagStore() persistence.FlagStore { return nil }
+
+type vfRecorder struct {
+	hdr  http.Header
+	body string
+	code int
+}
+
+func (r *vfRecorder) Header() http.Header {
+	if r.hdr == nil {
+		r.hdr = http.Header{}
+	}
+	return r.hdr
+}
+func (r *vfRecorder) Write(b []byte) (int, error) { r.body += string(b); return len(b), nil }
+func (r *vfRecorder) WriteHeader(code int)        { r.code = code }
+
+func VerifHarness_C16_window() {
+	executor.Register("verifrace", func(ctx context.Context, step dag.Step) (executor.Executor, error) {
+		idx := 1
+		if dc, err := dag.GetContext(ctx); err == nil {
+			for _, e := range dc.Envs {
+				if e.Key == dag.EnvKeyRequestID && e.Value == "run-A" {
+					idx = 0
+				}
+			}
+		}
+		return vfRaceExec{idx: idx}, nil
+	})
+	lg := logger.NewLogger(logger.NewLoggerArgs{Quiet: true})
+	d := vfAgDAG(dag.Step{Name: "s0", ExecutorConfig: dag.ExecutorConfig{Type: "verifrace"}})
+	d.HandlerOn = dag.HandlerOn{}
+	sA := &vfWindowStores{h: &vfRaceHist{id: "run-A"}, parked: make(chan struct{}), resume: make(chan struct{})}
+	sB := &vfWindowStores{h: &vfRaceHist{id: "run-B"}}
+	a := New("run-A", d, lg, vfAgLogDir(), vfAgLogDir()+"/agentA.log", client.New(sA, "", "", lg), sA, &Options{})
+	b := New("run-B", d, lg, vfAgLogDir(), vfAgLogDir()+"/agentB.log", client.New(sB, "", "", lg), sB, &Options{})
+	vfSockHandler(d.SockAddr(), func(method, url string) string {
+		rec := &vfRecorder{}
+		a.HandleHTTP(rec, &http.Request{Method: method, URL: &neturl.URL{Path: url}})
+		return rec.body
+	})
+	doneA := make(chan error)
+	go func() { doneA <- a.Run(context.Background()) }()
+	<-sA.parked // A's status socket is listening; its steps have not started
+	errB := b.Run(context.Background())
+	sA.resume <- struct{}{}
+	<-doneA
+	vfAssert(errors.Is(errB, errDAGIsAlreadyRunning), "C16.window/second-start-is-refused-once-the-first-run-is-listening")
+	vfAssert(vfCount("step-start", 1) == 0 && vfCount("hist-open", 1) == 0, "C16.window/refused-start-runs-and-records-nothing")
+	vfAssert(vfCount("step-start", 0) == 1, "C16.window/first-run-is-not-disturbed")
 	vfReach("end")
 }
